@@ -320,7 +320,7 @@ static void do_readi_inj(int h,long len,int word,int sgned,int be,const char *he
 /* 1 if the page a page-granularity seek to pos must settle on (the last page of the link's stream whose granule position is below the
    target) holds nothing but the tail of a packet begun on an earlier page: decoding cannot start there (known finding early_page_landing) */
 static int best_is_lone_tail(file_t *F,long pos){
-  if(!F||pos<0||pos>=F->start[F->nlinks]) return 0;
+  if(!F||pos<0||pos>F->start[F->nlinks]) return 0;   /* pos == total is a legal target */
   int l=file_link_of_pos(F,pos); long long tg=(long long)pos-F->start[l]+F->gpoff[l]; page_t *best=NULL;
   for(int j=0;j<F->npages;j++){ page_t *p=&F->pages[j]; if(p->link!=l||p->off<F->dataoff[l]||p->gp<0) continue; if(p->gp<tg) best=p; }
   return best && best->cont && best->npk==1;
@@ -445,7 +445,9 @@ static int run_scenario(int from,int to,const char *name,int budget){
     else if((!strcmp(c,"ps")||!strcmp(c,"psp")||!strcmp(c,"rs")||!strcmp(c,"psl")||!strcmp(c,"pspl")||!strcmp(c,"rsl"))&&nt>=3) do_seek(atoi(tok[1]),c,tok[2]);
     else if((!strcmp(c,"ts")||!strcmp(c,"tsp")||!strcmp(c,"tsl")||!strcmp(c,"tspl"))&&nt>=5) do_tseek(atoi(tok[1]),c,atol(tok[2]),atol(tok[3]),atol(tok[4]));
     else if(!strcmp(c,"hr")&&nt>=3){ int h=atoi(tok[1]); long t0=H[h].vf.pcm_offset; int rs0=H[h].vf.ready_state; call_begin(h); int ret=ov_halfrate(&H[h].vf,atoi(tok[2])); ev_begin("HalfRate"); ev_i("flag",atoi(tok[2])); ev_i("ret",ret); ev_i("t0",t0); ev_i("rs0",rs0); ev_state(h); ev_end(); }
-    else if(!strcmp(c,"xl")&&nt>=3){ int h1=atoi(tok[1]),h2=atoi(tok[2]); long t1=H[h1].vf.pcm_offset,t2=H[h2].vf.pcm_offset; call_begin(h2); int ret=ov_crosslap(&H[h1].vf,&H[h2].vf); ev_begin("Crosslap"); ev_i("h1",h1); ev_i("h2",h2); ev_i("ret",ret); ev_i("t01",t1); ev_i("t02",t2); ev_i("t11",H[h1].vf.pcm_offset); ev_i("rs1",H[h1].vf.ready_state); ev_state(h2); ev_end(); }
+    else if(!strcmp(c,"xl")&&nt>=3){ int h1=atoi(tok[1]),h2=atoi(tok[2]); long t1=H[h1].vf.pcm_offset,t2=H[h2].vf.pcm_offset; int c10=H[h1].vf.current_link,r10=H[h1].vf.ready_state,c20=H[h2].vf.current_link,r20=H[h2].vf.ready_state; call_begin(h2); int ret=ov_crosslap(&H[h1].vf,&H[h2].vf); ev_begin("Crosslap"); ev_i("h1",h1); ev_i("h2",h2); ev_i("ret",ret); ev_i("t01",t1); ev_i("t02",t2); ev_i("t11",H[h1].vf.pcm_offset); ev_i("rs1",H[h1].vf.ready_state);
+      /* the links whose decode state the two handles were in (a handle that sits exactly on a link boundary is still in the link that ends there) */
+      ev_i("cur10",r10>=3?c10:-1); ev_i("cur20",r20>=3?c20:-1); ev_i("cur11",H[h1].vf.ready_state>=3?H[h1].vf.current_link:-1); ev_state(h2); ev_end(); }
     else if(!strcmp(c,"q")&&nt>=2){ int h=atoi(tok[1]); call_begin(h); ev_begin("Query"); ev_linktable(h); ev_i("brall",ov_bitrate(&H[h].vf,-1)); ev_i("bri",ov_bitrate_instant(&H[h].vf)); ev_i("sn",ov_serialnumber(&H[h].vf,-1)); ev_i("hrp",ov_halfrate_p(&H[h].vf)); ev_state(h); ev_end(); }
     else if(!strcmp(c,"tell")&&nt>=2){ int h=atoi(tok[1]); OggVorbis_File *vf=&H[h].vf; call_begin(h); long long pt=ov_pcm_tell(vf), rt=ov_raw_tell(vf); double tt=ov_time_tell(vf); ev_begin("Tell"); ev_i("pt",pt); ev_i("rt",rt); ev_i("ttms",(long long)floor(tt*1000.0)); ev_state(h); ev_end(); }
     else if(!strcmp(c,"clear")&&nt>=2){ int h=atoi(tok[1]); call_begin(h); int ret=ov_clear(&H[h].vf); H[h].opened=0; ev_begin("Clear"); ev_i("ret",ret); ev_state(h); ev_i("live",(long long)live_bytes()-(long long)live0); ev_end(); }
